@@ -1056,7 +1056,40 @@ class M2c00(Unit):
             P.prove(list(got.keys()) == [route[1]], "the object has the decoder's single key")
 
 
-UNITS_C18 = [ParseCustom, SrcParse, ProcDesc, Osrc, M2c00]
+class OCallouts(Unit):
+    """the shipped BMC callout plug-in: a description (JSON list of lines) for the eight published procedures, the empty
+    string for any other name; never raises, keeps no state"""
+    prop = "C18"
+    name = "calloutparsers.ocallouts.getMaintProcDesc"
+    target = "calloutparsers.ocallouts.ocallouts.getMaintProcDesc"
+    shards = 2
+    PUBLISHED = ["BMC0001", "BMC0002", "BMC0003", "BMC0004", "BMC0005", "BMC0006", "BMC0007", "BMC0008"]
+
+    def inputs(self, S):
+        if S.symbolic and self.shard == 1:
+            p = S.opaque_str("procedure")       # any text that is not one of the published names
+            S.assume(Not(Or(*[Eq(p, k) for k in self.PUBLISHED])))
+        else:
+            p = S.choice("procedure", self.PUBLISHED + ["BMC0009", "bmc0001", "", "BMC00010"])
+        return dict(procedure=p)
+
+    def check(self, P, inp, old, out):
+        import json as _json
+        P.prove(out.returned, "never raises")
+        if not out.returned:
+            return
+        v = out.value
+        known = Or(*[Eq(inp['procedure'], k) for k in self.PUBLISHED])
+        if isinstance(v, str) and v == '':
+            P.prove(Not(known), "the empty string only for a name that is not published")
+            return
+        text = v.value if isinstance(v, DumpedStr) else (_json.loads(v) if isinstance(v, str) else None)
+        P.prove(isinstance(text, list) and len(text) >= 1 and all(isinstance(t, str) and t for t in text),
+                "a published procedure gives a JSON list of non-empty lines")
+        P.prove(known, "a description only for a published name")
+
+
+UNITS_C18 = [ParseCustom, SrcParse, ProcDesc, Osrc, M2c00, OCallouts]
 
 
 def _native_procdesc(self, inp):
